@@ -18,7 +18,7 @@ pub fn def() -> PropDef {
     PropDef {
         info: PropInfo {
             id: "C10",
-            rule: "histories: new(None | program) followed by 1-30 operations over {set_program(valid | default-invalid | valid-only-under-another-verifier, with new offsets for the fixed-metadata VM), set_verifier(reference-equivalent | accept-all | reject-all | custom 'first immediate must be even'), register_helper, set_stack_usage_calculator, jit_compile, cranelift_compile, execute, execute_jit, execute_cranelift with one of three packets} on each of the four VM kinds; programs come from a pool of tiny well-defined programs returning distinct values (constants, helper results, a packet byte, the frame size seen by a local function and by a function nested two calls deep (under a stack-usage calculator that depends on its data, on the program and on the pc), the packet length through the fixed VM's offsets). Oracle: abstract VM state machine (loaded program, verifier in force, helpers, what each compiler compiled and under which helpers / calculator, offsets); after EVERY step Ok/Err and the value are compared with the model; after a successful reload compiled code may only be 'not compiled' (Err) or the NEW program's value; a failing set_program / set_verifier must leave every later observation unchanged. Non-trivial = history with a reload after a compile, a failed load on a configured VM, or >= 2 executions; distinct by hash of the history.",
+            rule: "histories: new(None | program) followed by 1-30 operations over {set_program(valid | default-invalid | valid-only-under-another-verifier, with new offsets for the fixed-metadata VM), set_verifier(reference-equivalent | accept-all | reject-all | custom 'first immediate must be even'), register_helper, set_stack_usage_calculator, jit_compile, cranelift_compile, execute, execute_jit, execute_cranelift with one of three packets or - in histories that never load a packet-reading program - the empty packet} on each of the four VM kinds; programs come from a pool of tiny well-defined programs returning distinct values (constants, helper results, a packet byte, the frame size seen by a local function and by a function nested two calls deep (under a stack-usage calculator that depends on its data, on the program and on the pc), the packet length through the fixed VM's offsets). Oracle: abstract VM state machine (loaded program, verifier in force, helpers, what each compiler compiled and under which helpers / calculator, offsets); after EVERY step Ok/Err and the value are compared with the model; after a successful reload compiled code may only be 'not compiled' (Err) or the NEW program's value; a failing set_program / set_verifier must leave every later observation unchanged. Non-trivial = history with a reload after a compile, a failed load on a configured VM, or >= 2 executions; distinct by hash of the history.",
             assumptions: &["the crate's default verifier is not exported: the 'default' verifier re-installed by set_verifier is the harness's reference verifier (equivalent by C06)", "compilation of programs that the default verifier would reject (loaded under accept-all) is not exercised with Cranelift", "helper ids are always bound to the same function within one history (re-binding an id after a JIT compilation is documented to be unsupported)"],
         },
         run,
@@ -171,7 +171,7 @@ fn op() -> impl Strategy<Value = Op> {
         1 => (0u8..3).prop_map(Op::SetCalc),
         3 => Just(Op::JitCompile),
         2 => Just(Op::CraneliftCompile),
-        8 => (0u8..3, 0u8..3).prop_map(|(engine, pkt)| Op::Exec { engine, pkt }),
+        8 => (0u8..3, 0u8..4).prop_map(|(engine, pkt)| Op::Exec { engine, pkt }),
     ]
 }
 
@@ -204,7 +204,7 @@ fn pick_prog(pool: &[(PKind, Vec<u8>)], kind: u8, sel: u8) -> usize {
     cands[sel as usize % cands.len()]
 }
 
-const PKTS: [&[u8]; 3] = [&[0x10, 0x20, 0x30], &[0x41, 0x42, 0x43, 0x44, 0x45, 0x46, 0x47, 0x48, 0x49], &[0x7f; 40]];
+const PKTS: [&[u8]; 4] = [&[0x10, 0x20, 0x30], &[0x41, 0x42, 0x43, 0x44, 0x45, 0x46, 0x47, 0x48, 0x49], &[0x7f; 40], &[]];
 const CALCS: [u16; 3] = [64, 8, 160];
 
 #[repr(C)]
@@ -301,7 +301,8 @@ unsafe fn child(mem: &Mem10, h: &History, progs: &[(PKind, &'static [u8])]) {
             Op::CraneliftCompile => catch(std::panic::AssertUnwindSafe(|| vm.cranelift_compile().map(|_| 0))),
             Op::Exec { engine, pkt } => {
                 let e = ENGINES[*engine as usize % 3];
-                let (pa, pl) = (mem.pkt_addr(*pkt as usize % 3) as *mut u8, PKTS[*pkt as usize % 3].len());
+                let pi = packet_index(h, &progs.iter().map(|p| p.0).collect::<Vec<_>>(), *pkt);
+                let (pa, pl) = (mem.pkt_addr(pi) as *mut u8, PKTS[pi].len());
                 // user metadata buffer of the metadata VM: pointers to this packet
                 if let VmKind::Mbuff { .. } = kind {
                     std::ptr::copy_nonoverlapping((pa as u64).to_le_bytes().as_ptr(), mb, 8);
@@ -334,6 +335,19 @@ fn effective_offs(pk: PKind, offs: u8) -> u8 {
 
 fn helper_pool(id: u32) -> u8 {
     [0u8, 1, 6][id as usize % 3]
+}
+
+/// Packet used by an execution: the empty packet (#3) only in histories that never load a program
+/// reading packet bytes (the unchecked JIT cannot survive such a read).
+fn packet_index(h: &History, kinds: &[PKind], pkt: u8) -> usize {
+    let cands: Vec<usize> = (0..kinds.len()).filter(|i| usable(h.kind, kinds[*i])).collect();
+    let picks = h.init.iter().copied().chain(h.ops.iter().filter_map(|op| if let Op::SetProgram { p, .. } = op { Some(*p) } else { None }));
+    let reads_packet = picks.into_iter().any(|sel| matches!(kinds[cands[sel as usize % cands.len()]], PKind::PktByte));
+    if reads_packet {
+        pkt as usize % 3
+    } else {
+        pkt as usize % 4
+    }
 }
 
 fn pick_prog_static(progs: &[(PKind, &'static [u8])], kind: u8, sel: u8) -> usize {
@@ -406,7 +420,7 @@ pub fn check(mem: &Mem10, h: &History) -> (Verdict, bool) {
             for (k, op) in h.ops.iter().enumerate().take(upto + 1) {
                 let what = match op {
                     Op::SetProgram { p, offs } => format!("set_program(pool #{} {:?}, offsets {:?})", pick_prog(&pool, h.kind, *p), pool[pick_prog(&pool, h.kind, *p)].0, OFFSETS[effective_offs(pool[pick_prog(&pool, h.kind, *p)].0, *offs) as usize % 3]),
-                    Op::Exec { engine, pkt } => format!("execute[{}](packet #{})", ENGINES[*engine as usize % 3].name(), pkt % 3),
+                    Op::Exec { engine, pkt } => format!("execute[{}](packet #{})", ENGINES[*engine as usize % 3].name(), packet_index(h, &pool.iter().map(|p| p.0).collect::<Vec<_>>(), *pkt)),
                     other => format!("{other:?}"),
                 };
                 let r = sh.recs[k];
@@ -544,7 +558,7 @@ pub fn check(mem: &Mem10, h: &History) -> (Verdict, bool) {
                 Op::Exec { engine, pkt } => {
                     execs += 1;
                     let e = *engine as usize % 3;
-                    let pkt = *pkt as usize % 3;
+                    let pkt = packet_index(h, &pool.iter().map(|p| p.0).collect::<Vec<_>>(), *pkt);
                     let addr = mem.pkt_addr(pkt);
                     let value_matches = |want: &MOut| -> bool {
                         match want {
@@ -660,7 +674,13 @@ fn run(ctx: &Ctx) {
             if !st.is_frozen() {
                 st.eval();
                 st.class(&format!("vm:{}", vm_kind(h.kind, 0).name()));
+                let pool_kinds: Vec<PKind> = pool().iter().map(|p| p.0).collect();
                 for o in &h.ops {
+                    if let Op::Exec { pkt, .. } = o {
+                        if packet_index(h, &pool_kinds, *pkt) == 3 {
+                            st.class("execute:empty-packet");
+                        }
+                    }
                     st.class(match o {
                         Op::SetProgram { .. } => "op:set_program",
                         Op::SetVerifier(_) => "op:set_verifier",
